@@ -203,6 +203,7 @@ fn script(c: &Case, w: &mut World) -> Vec<Mark> {
             let fl = libc::O_CREAT | acc | if trunc { libc::O_TRUNC } else { 0 };
             let r = w.create(ROOT, name, fl, 0o644);
             m.push(Mark { idx: w.last(), kind: Kind::Main { within: !(trunc && existing), strict_errno: true }, op: "create" });
+            let r_ok = r.is_ok();
             let (ino, h) = match r {
                 Ok((e, h)) => (e.inode, h.unwrap_or(u64::MAX)),
                 Err(_) => (u64::MAX, u64::MAX),
@@ -211,6 +212,15 @@ fn script(c: &Case, w: &mut World) -> Vec<Mark> {
             let _ = w.write(ino, h, &b"Q"[..size.min(1)], 0, acc);
             if !(trunc && existing) && existing {
                 m.push(Mark { idx: w.last(), kind: Kind::Probe, op: "create" });
+            }
+            // (a write to the NEW file is refused too: the library seals every file; either way the handle must survive)
+            let r = w.getattr(ino, Some(h));
+            if r_ok {
+                m.push(Mark { idx: w.last(), kind: Kind::Alive, op: "create" });
+                w.poisoned |= r == Err(libc::EBADF);
+                if w.poisoned {
+                    return m;
+                }
             }
             let _ = w.release(ino, h);
             w.forget(ino, 1);
@@ -282,7 +292,23 @@ pub fn run(cx: &mut Cx) {
     let mut twin_changed_total = 0u64;
     let mut refused_total = 0u64;
     let mut within_total = 0u64;
-    for c in seeded(cases(), cx.opts) {
+    // Without open support every request works on a descriptor of its own; a defect that closes it
+    // twice kills a process built with debug assertions. One child process tries all sealed no_open
+    // scripts first: if it survives they are safe to run here, otherwise each one is tried in a
+    // child of its own so that the offending script can be named.
+    let all = seeded(cases(), cx.opts);
+    let risky: Vec<Case> = all.iter().filter(|c| c.no_open() && cx.selects(&c.label())).cloned().collect();
+    let canary_ok = risky.is_empty()
+        || in_child(|| {
+            for c in &risky {
+                let nodes = vec![file("export/f", &pattern(c.size())), file("export/g", &pattern(10))];
+                if let Ok(mut w) = World::new(&nodes, Cfg { seal: true, no_open: true, ..Default::default() }, 0) {
+                    let _ = script(c, &mut w);
+                }
+            }
+        })
+        .is_ok();
+    for c in all {
         let label = c.label();
         let tc = &mut twin_changed_total;
         let rt = &mut refused_total;
@@ -290,8 +316,32 @@ pub fn run(cx: &mut Cx) {
         cx.scenario(&label, |cx| {
             let nodes = vec![file("export/f", &pattern(c.size())), file("export/g", &pattern(10))];
             let no = c.no_open();
+            if no && !canary_ok {
+                // without open support every request works on a descriptor of its own: a defect that closes
+                // it twice kills a process built with debug assertions, so the sealed run is tried in a child first
+                let died = in_child(|| {
+                    if let Ok(mut w) = World::new(&nodes, Cfg { seal: true, no_open: true, ..Default::default() }, 0) {
+                        let _ = script(&c, &mut w);
+                    }
+                });
+                if let Err(sig) = died {
+                    let Some(mut twin) = cx.world_lane(&nodes, Cfg { seal: false, no_open: no, ..Default::default() }, 1) else { return };
+                    let _ = script(&c, &mut twin);
+                    cx.account(&twin, &label);
+                    cx.rep.fail(
+                        &format!("C18.{}.handle_alive", c.op()),
+                        &format!("PassthroughFs::{}", c.op()),
+                        || twin.witness(vec![("note", s("the script is shown with the results of the unsealed twin; the run on the sealed export (seal_size:true, otherwise the same configuration) did not survive"))]),
+                        "the sealed export answers every request of the script (refusing those that would change a size) and keeps serving".to_string(),
+                        format!("the serving process was killed by signal {} during the script (SIGABRT = 6: a descriptor was closed twice, 'IO Safety violation' in a build with debug assertions)", sig),
+                    );
+                    return;
+                }
+            }
             let Some(mut sealed) = cx.world(&nodes, Cfg { seal: true, no_open: no, ..Default::default() }) else { return };
             let Some(mut twin) = cx.world_lane(&nodes, Cfg { seal: false, no_open: no, ..Default::default() }, 1) else { return };
+            sealed.label = label.clone();
+            twin.label = label.clone();
             sealed.watch_files(&["f", "g"]);
             twin.watch_files(&["f", "g"]);
             let marks = script(&c, &mut sealed);
